@@ -1,5 +1,252 @@
-import Arp.Model.Arith
-import Arp.Spec.Ops
+import Arp.Lemmas.Sqrt
+import Mathlib.Analysis.Real.Sqrt
+/-!
+# C12 / C19 — `sqrt`
+
+`Flt.sqrtFuel fuel x` models `Float::sqrt` (functions.rs); `none` = fuel exhausted.
+The Newton iteration runs in the format `wide = sem.increaseExponent 1`; the analysis is in
+`Arp/Lemmas/Sqrt.lean`.  Everything below holds for every well-formed format
+(`2 ≤ e`, `2 ≤ p`), every rounding mode, normal and subnormal arguments; no condition on the
+format size is needed.
+
+* `sqrt_special`         ±0 ↦ ±0, NaN and negative ↦ NaN, +inf ↦ +inf (any fuel);
+* `sqrt_pos_finite`      positive finite ↦ positive finite non-zero canonical, never ±inf;
+* `sqrt_terminates`      returns within `sqrtFuelBound x = 2·emax − emin + 2p + 20` iterations
+                         (`sqrtFuel_stable`: more fuel never changes the result);
+* `sqrt_error`           `Spec.sqrtWithin x r 1 true` in the nearest modes (`< 1 ulp`),
+                         `Spec.sqrtWithin x r 2 false` otherwise (`≤ 2 ulp`);
+                         `sqrt_error_upper`: `√x < r + ulp` in every mode;
+                         `sqrt_error_real`: the same against `Real.sqrt`;
+* `sqrt_perfect_square`  nearest modes: the root of a representable square is exact.
+-/
 namespace Arp.C12
-theorem smoke : (1:Nat) + 1 = 2 := rfl
+open Arp Arp.Sqrt
+
+/-! ## 1. special values -/
+
+/-- `sqrt(±0) = ±0`, `sqrt(NaN) = NaN`, `sqrt(negative) = NaN`, `sqrt(+inf) = +inf`, for any fuel -/
+theorem sqrt_special (x : Flt) (fuel : Nat) :
+    (x.cat = .zero → x.sqrtFuel fuel = some x) ∧
+    ((x.cat = .nan ∨ (x.sign = true ∧ x.cat ≠ .zero)) →
+        x.sqrtFuel fuel = some (Flt.nan x.sem x.sign)) ∧
+    (x.cat = .inf → x.sign = false → x.sqrtFuel fuel = some x) := by
+  refine ⟨?_, ?_, ?_⟩
+  · intro h; simp [Flt.sqrtFuel, Flt.isZero, h]
+  · rintro (h | ⟨h1, h2⟩)
+    · simp [Flt.sqrtFuel, Flt.isZero, Flt.isNan, h]
+    · cases hc : x.cat <;> simp_all [Flt.sqrtFuel, Flt.isZero, Flt.isNan]
+  · intro h hs; simp [Flt.sqrtFuel, Flt.isZero, Flt.isNan, Flt.isInf, h, hs]
+
+example : (⟨FP16, true, 0, 0, .zero⟩ : Flt).sqrtFuel 0 = some ⟨FP16, true, 0, 0, .zero⟩ := by decide
+example : (⟨FP16, true, 0, 1024, .normal⟩ : Flt).sqrtFuel 0 = some (Flt.nan FP16 true) := by decide
+example : (⟨FP16, false, 0, 0, .inf⟩ : Flt).sqrtFuel 0 = some ⟨FP16, false, 0, 0, .inf⟩ := by decide
+example : (⟨FP16, true, 0, 0, .inf⟩ : Flt).sqrtFuel 0 = some (Flt.nan FP16 true) := by decide
+
+/-! ## 2. the root of a positive finite value is positive and finite -/
+
+/-- For a finite positive `x` (normal or subnormal) of any well-formed format, whatever the
+    mode and the fuel: if `sqrt` returns, it returns a finite, non-zero, positive canonical
+    value of the same format — never an infinity, a zero or a NaN.  No side condition on the
+    format size is needed. -/
+theorem sqrt_pos_finite (x : Flt) (fuel : Nat) (hF : x.sem.WF) (hc : x.Canonical)
+    (hx : x.cat = .normal) (hs : x.sign = false) (r : Flt) (h : x.sqrtFuel fuel = some r) :
+    r.cat = .normal ∧ r.sign = false ∧ r.Canonical ∧ r.sem = x.sem := by
+  obtain ⟨b, _, _, _, _, hr, _⟩ := sqrt_result hF ⟨rfl, hc, hx, hs⟩ h
+  exact ⟨hr.cat, hr.sign, hr.can, hr.sem⟩
+
+/-- `√2` in binary16 -/
+example : (⟨FP16, false, 1, 1024, .normal⟩ : Flt).sqrtFuel 40 = some ⟨FP16, false, 0, 1448, .normal⟩ := by
+  decide
+/-- the largest finite binary16 value, rounding upward: no overflow (`√65504 ≈ 255.94 ↦ 256`) -/
+example : (⟨⟨5, 11, .pos⟩, false, 15, 2047, .normal⟩ : Flt).sqrtFuel 40
+    = some ⟨⟨5, 11, .pos⟩, false, 8, 1024, .normal⟩ := by decide
+/-- the smallest subnormal -/
+example : (⟨FP16, false, -14, 1, .normal⟩ : Flt).sqrtFuel 40 = some ⟨FP16, false, -12, 1024, .normal⟩ := by
+  decide
+
+/-! ## 3. termination (C19) -/
+
+/-- A fuel that always suffices, linear in the exponent range and the precision:
+    `2·emax − emin + 2p + 20` (`= 3·2^(e-1) + 2p + 16`; 86 for binary16, where at most 17
+    iterations occur; 448 for binary32, 3194 for binary64).
+    Proof: two iterations per binade while the iterate is above `2^(k+2) > 2√x`
+    (`4^k ≤ x < 4^(k+1)`); then the distance to the root, measured in ulps of the root,
+    at least halves (up to 8.5 ulps) at every iteration: `p + 1` iterations; then the
+    iterates, strictly decreasing multiples of the ulp, are within 19 ulps of the root. -/
+def sqrtFuelBound (x : Flt) : Nat := (2 * x.sem.emax - x.sem.emin).toNat + 2 * x.sem.p + 20
+
+/-- more fuel never changes a result -/
+theorem sqrtFuel_stable (x r : Flt) (f1 f2 : Nat) (hle : f1 ≤ f2) (h : x.sqrtFuel f1 = some r) :
+    x.sqrtFuel f2 = some r := by
+  induction hle with
+  | refl => exact h
+  | step _ ih =>
+    unfold Flt.sqrtFuel at ih ⊢
+    split at ih
+    · rename_i h1; rw [if_pos h1]; exact ih
+    · rename_i h1; rw [if_neg h1]
+      split at ih
+      · rename_i h2; rw [if_pos h2]; exact ih
+      · rename_i h2; rw [if_neg h2]
+        split at ih
+        · rename_i h3; rw [if_pos h3]; exact ih
+        · rename_i h3; rw [if_neg h3]; exact sqrtLoop_mono _ _ _ _ _ _ ih
+
+/-- **Termination**: for every canonical argument (any category, sign, mode) `sqrt` returns
+    within `sqrtFuelBound x` iterations, hence for every larger fuel. -/
+theorem sqrt_terminates (x : Flt) (hF : x.sem.WF) (hc : x.Canonical) (fuel : Nat)
+    (hfuel : sqrtFuelBound x ≤ fuel) : ∃ r, x.sqrtFuel fuel = some r := by
+  by_cases hx : x.cat = .normal ∧ x.sign = false
+  · exact sqrt_fuel_linear hF ⟨rfl, hc, hx.1, hx.2⟩ hfuel
+  · obtain ⟨s1, s2, s3⟩ := sqrt_special x fuel
+    cases hcat : x.cat
+    · cases hsg : x.sign
+      · exact ⟨_, s3 hcat hsg⟩
+      · exact ⟨_, s2 (Or.inr ⟨hsg, by rw [hcat]; decide⟩)⟩
+    · exact ⟨_, s2 (Or.inl hcat)⟩
+    · cases hsg : x.sign
+      · exact absurd ⟨hcat, hsg⟩ hx
+      · exact ⟨_, s2 (Or.inr ⟨hsg, by rw [hcat]; decide⟩)⟩
+    · exact ⟨_, s1 hcat⟩
+
+example : sqrtFuelBound ⟨FP16, false, 15, 2047, .normal⟩ = 86 := by decide
+/-- the largest binary16 value needs 11 iterations (10 are not enough) -/
+example : (⟨FP16, false, 15, 2047, .normal⟩ : Flt).sqrtFuel 10 = none := by decide
+example : (⟨FP16, false, 15, 2047, .normal⟩ : Flt).sqrtFuel 11 = some ⟨FP16, false, 8, 1024, .normal⟩ := by
+  decide
+example : ∃ r, (⟨FP16, false, 15, 2047, .normal⟩ : Flt).sqrtFuel 100000 = some r :=
+  sqrt_terminates _ (by decide) (by decide) _ (by decide)
+
+/-! ## 4. accuracy -/
+
+/-- unfolding of the executable predicate `Spec.sqrtWithin` -/
+theorem sqrtWithin_iff (x r : Flt) (k : Nat) (strict : Bool) :
+    Spec.sqrtWithin x r k strict = true ↔
+      r.cat = .normal ∧ r.sign = false ∧
+      (r.mag - r.sem.ulp r.exp * k ≤ 0 ∨
+        (if strict then (r.mag - r.sem.ulp r.exp * k) * (r.mag - r.sem.ulp r.exp * k) < x.mag
+         else (r.mag - r.sem.ulp r.exp * k) * (r.mag - r.sem.ulp r.exp * k) ≤ x.mag)) ∧
+      (if strict then x.mag < (r.mag + r.sem.ulp r.exp * k) * (r.mag + r.sem.ulp r.exp * k)
+       else x.mag ≤ (r.mag + r.sem.ulp r.exp * k) * (r.mag + r.sem.ulp r.exp * k)) := by
+  unfold Spec.sqrtWithin Spec.ulpOf
+  rw [pow2_eq, ← Sem.ulp_def]
+  cases strict <;> by_cases h : r.mag - r.sem.ulp r.exp * k ≤ 0 <;> simp [h, and_assoc]
+
+/-- the upper half of the error bound holds in every mode and every format:
+    `√x < r + ulp(r)` -/
+theorem sqrt_error_upper (x : Flt) (fuel : Nat) (hF : x.sem.WF) (hc : x.Canonical)
+    (hx : x.cat = .normal) (hs : x.sign = false) (r : Flt) (h : x.sqrtFuel fuel = some r) :
+    x.mag < (r.mag + r.sem.ulp r.exp) * (r.mag + r.sem.ulp r.exp) := by
+  obtain ⟨hr, h1, _⟩ := sqrt_bounds hF ⟨rfl, hc, hx, hs⟩ h
+  rw [hr.sem]; exact h1
+
+/-- **Accuracy (C12).**  For a finite positive `x` (normal or subnormal) of any well-formed
+    format, no condition on the format size: the result is within one ulp (strictly) of `√x`
+    in the two nearest modes and within two ulps in the directed and truncating modes —
+    `Spec.sqrtWithin`, the executable predicate `(r - k·ulp)² < x < (r + k·ulp)²`
+    (`≤` for `k = 2`; `ulp` = unit in the last place of the result `r`) checked by the
+    differential tests. -/
+theorem sqrt_error (x : Flt) (fuel : Nat) (hF : x.sem.WF) (hc : x.Canonical)
+    (hx : x.cat = .normal) (hs : x.sign = false)
+    (r : Flt) (h : x.sqrtFuel fuel = some r) :
+    Spec.sqrtWithin x r (if x.sem.rm = .nte ∨ x.sem.rm = .nta then 1 else 2)
+      (decide (x.sem.rm = .nte ∨ x.sem.rm = .nta)) = true := by
+  obtain ⟨hr, h1, h3, h4⟩ := sqrt_bounds hF ⟨rfl, hc, hx, hs⟩ h
+  have hu := x.sem.ulp_pos r.exp
+  have hm := hr.mag_pos
+  rw [sqrtWithin_iff, hr.sem]
+  refine ⟨hr.cat, hr.sign, ?_⟩
+  by_cases hrm : x.sem.rm = .nte ∨ x.sem.rm = .nta
+  · rw [if_pos hrm, decide_eq_true hrm]
+    simp only [Nat.cast_one, mul_one, if_true]
+    exact ⟨h3 hrm, h1⟩
+  · rw [if_neg hrm, decide_eq_false hrm]
+    simp only [Nat.cast_ofNat, Bool.false_eq_true, if_false]
+    refine ⟨?_, ?_⟩
+    · rw [mul_comm (x.sem.ulp r.exp) 2]; exact h4
+    · nlinarith
+
+/-- `√2` in binary16, nearest-even: within one ulp -/
+example : Spec.sqrtWithin ⟨FP16, false, 1, 1024, .normal⟩ ⟨FP16, false, 0, 1448, .normal⟩ 1 true = true :=
+  sqrt_error ⟨FP16, false, 1, 1024, .normal⟩ 40 (by decide) (by decide) rfl rfl _ (by decide)
+
+/-- the largest finite binary16 value, rounding upward: within two ulps -/
+example : Spec.sqrtWithin ⟨⟨5, 11, .pos⟩, false, 15, 2047, .normal⟩ ⟨⟨5, 11, .pos⟩, false, 8, 1024, .normal⟩
+    2 false = true :=
+  sqrt_error ⟨⟨5, 11, .pos⟩, false, 15, 2047, .normal⟩ 40 (by decide) (by decide) rfl rfl _
+    (by decide)
+
+/-- **The same with the real square root**: `-ulp < r - √x ≤ 2·ulp` in every mode and
+    `|r - √x| < ulp` in the two nearest modes (`ulp` of the result). -/
+theorem sqrt_error_real (x : Flt) (fuel : Nat) (hF : x.sem.WF) (hc : x.Canonical)
+    (hx : x.cat = .normal) (hs : x.sign = false) (r : Flt) (h : x.sqrtFuel fuel = some r) :
+    -((r.sem.ulp r.exp : ℚ) : ℝ) < (r.mag : ℝ) - Real.sqrt (x.mag : ℝ) ∧
+    (r.mag : ℝ) - Real.sqrt (x.mag : ℝ) ≤ 2 * ((r.sem.ulp r.exp : ℚ) : ℝ) ∧
+    ((x.sem.rm = .nte ∨ x.sem.rm = .nta) →
+      |(r.mag : ℝ) - Real.sqrt (x.mag : ℝ)| < ((r.sem.ulp r.exp : ℚ) : ℝ)) := by
+  obtain ⟨hr, h1, h3, h4⟩ := sqrt_bounds hF ⟨rfl, hc, hx, hs⟩ h
+  rw [hr.sem]
+  have hu : (0:ℝ) < ((x.sem.ulp r.exp : ℚ) : ℝ) := by exact_mod_cast x.sem.ulp_pos r.exp
+  have hm : (0:ℝ) < (r.mag : ℝ) := by exact_mod_cast hr.mag_pos
+  have ht : (0:ℝ) < (x.mag : ℝ) := by exact_mod_cast Flt.mag_pos x hx hc
+  have hsq := Real.sqrt_pos.mpr ht
+  have up : Real.sqrt (x.mag : ℝ) < (r.mag : ℝ) + ((x.sem.ulp r.exp : ℚ) : ℝ) := by
+    rw [Real.sqrt_lt' (by linarith)]
+    have : ((x.mag : ℚ) : ℝ) < (((r.mag + x.sem.ulp r.exp) * (r.mag + x.sem.ulp r.exp) : ℚ) : ℝ) :=
+      Rat.cast_lt.mpr h1
+    push_cast at this
+    rw [sq]; exact this
+  have lo2 : (r.mag : ℝ) - 2 * ((x.sem.ulp r.exp : ℚ) : ℝ) ≤ Real.sqrt (x.mag : ℝ) := by
+    rcases h4 with h' | h'
+    · have : (((r.mag - 2 * x.sem.ulp r.exp : ℚ)) : ℝ) ≤ ((0:ℚ):ℝ) := Rat.cast_le.mpr h'
+      push_cast at this; linarith
+    · by_cases hpos : (r.mag : ℝ) - 2 * ((x.sem.ulp r.exp : ℚ) : ℝ) ≤ 0
+      · linarith
+      · rw [Real.le_sqrt' (not_le.mp hpos)]
+        have : (((r.mag - 2 * x.sem.ulp r.exp) * (r.mag - 2 * x.sem.ulp r.exp) : ℚ) : ℝ)
+            ≤ ((x.mag : ℚ) : ℝ) := Rat.cast_le.mpr h'
+        push_cast at this
+        rw [sq]; exact this
+  refine ⟨by linarith, by linarith, ?_⟩
+  intro hrm
+  have lo1 : (r.mag : ℝ) - ((x.sem.ulp r.exp : ℚ) : ℝ) < Real.sqrt (x.mag : ℝ) := by
+    rcases h3 hrm with h' | h'
+    · have : (((r.mag - x.sem.ulp r.exp : ℚ)) : ℝ) ≤ ((0:ℚ):ℝ) := Rat.cast_le.mpr h'
+      push_cast at this; linarith
+    · by_cases hpos : (r.mag : ℝ) - ((x.sem.ulp r.exp : ℚ) : ℝ) ≤ 0
+      · linarith
+      · rw [Real.lt_sqrt (le_of_lt (not_le.mp hpos))]
+        have : (((r.mag - x.sem.ulp r.exp) * (r.mag - x.sem.ulp r.exp) : ℚ) : ℝ)
+            < ((x.mag : ℚ) : ℝ) := Rat.cast_lt.mpr h'
+        push_cast at this
+        rw [sq]; exact this
+  rw [abs_lt]; constructor <;> linarith
+
+/-! ## 5. perfect squares -/
+
+/-- In the two nearest modes the root of a representable perfect square is exact. -/
+theorem sqrt_perfect_square (x y : Flt) (fuel : Nat) (hF : x.sem.WF) (hc : x.Canonical)
+    (hx : x.cat = .normal) (hs : x.sign = false)
+    (hrm : x.sem.rm = .nte ∨ x.sem.rm = .nta)
+    (hys : y.sem = x.sem) (hyc : y.Canonical) (hyx : y.cat = .normal) (hysg : y.sign = false)
+    (hsq : x.mag = y.mag * y.mag) (r : Flt) (h : x.sqrtFuel fuel = some r) : r = y :=
+  sqrt_square hF ⟨rfl, hc, hx, hs⟩ hrm ⟨hys, hyc, hyx, hysg⟩ hsq h
+
+/-- `√(25) = 5` in binary16 -/
+example : (⟨FP16, false, 4, 1600, .normal⟩ : Flt).sqrtFuel 40 = some ⟨FP16, false, 2, 1280, .normal⟩ := by
+  decide
+
+/-
+-- NOT PROVED (not needed by any statement above; recorded for C19 / C12)
+-- * A sharper iteration count.  Exhaustive runs of the model (all positive values, 6 modes)
+--   need at most 17 iterations for binary16 (`sqrtFuelBound` = 86), 13 for (e,p) = (5,4),
+--   11 for (4,8), 10 for (4,2), 9 for (2,10).  The theorem counts two iterations per binade
+--   while the iterate is above `2^(k+2)` and `p + 1` halvings of the distance afterwards; the
+--   quadratic convergence of the second phase (about `log₂ p` iterations) is not formalised.
+-- * One ulp in the modes `none`, `zero`, `neg`.  In the same runs the result is more than one
+--   ulp away from the root only in mode `pos` (376 of 31743 binary16 arguments, always above
+--   the root: `sqrt_error_upper` excludes the other side in every mode).  The theorem
+--   `sqrt_error` states two ulps for all four non-nearest modes.
+-/
+
 end Arp.C12
